@@ -45,11 +45,19 @@ func (q QueryContext) EvalQuery(query ast.Atom, mode []ast.ArgMode, uf unionfind
 			v, ok := arg.(ast.Variable)
 			if ok && mode[j] == ast.ArgModeInput {
 				vars = append(vars, v)
-				values = append(values, query.Args[j])
+				// Inputs are passed by value.
+				value := query.Args[j]
+				if queryVar, ok := value.(ast.Variable); ok {
+					value = uf.Get(queryVar)
+				}
+				values = append(values, value)
 			}
 		}
 
-		subst, err := unionfind.UnifyTermsExtend(vars, values, uf)
+		// The variables of a clause are local to one call: the bindings of the
+		// caller (which may be another call of the very same clause, or a rule
+		// that happens to use the same variable names) must not be visible.
+		subst, err := unionfind.UnifyTermsExtend(vars, values, unionfind.New())
 		if err != nil {
 			continue
 		}
